@@ -69,6 +69,13 @@ func (unpacker *RtpUnpackerAac) TryUnpackOne(list *RtpPacketList) (unpackedFlag 
 
 	aus := parseAu(b)
 
+	// 不合法的包，直接丢弃
+	if len(aus) == 0 {
+		list.Head.Next = p.Next
+		list.Size--
+		return true, p.Packet.Header.Seq
+	}
+
 	// 只有一个描述
 	if len(aus) == 1 {
 
@@ -154,6 +161,10 @@ func (unpacker *RtpUnpackerAac) TryUnpackOne(list *RtpPacketList) (unpackedFlag 
 
 	// more complete access unit
 	for i := range aus {
+		if aus[i].pos+aus[i].size > uint32(len(b)) {
+			Log.Errorf("au size invalid. pos=%d, size=%d, len(b)=%d", aus[i].pos, aus[i].size, len(b))
+			break
+		}
 		var outPkt base.AvPacket
 		outPkt.PayloadType = unpacker.payloadType
 		outPkt.Timestamp = rtpTs2Ms(p.Packet.Header.Timestamp, unpacker.clockRate)
@@ -174,12 +185,20 @@ type au struct {
 }
 
 func parseAu(b []byte) (ret []au) {
-	// TODO(chef): [fix] 解析b时，没有判断长度有效性 202207
+	// 长度不合法时返回nil
+
+	if len(b) < 2 {
+		return nil
+	}
 
 	// AU Header Section
 	var auHeadersLength uint32
 	auHeadersLength = uint32(b[0])<<8 + uint32(b[1])
 	auHeadersLength = (auHeadersLength + 7) / 8
+
+	if uint32(len(b)) < 2+auHeadersLength {
+		return nil
+	}
 
 	// TODO chef: 这里的2是写死的，正常是外部传入auSize和auIndex所占位数的和
 	const auHeaderSize = 2
